@@ -187,7 +187,7 @@ pub fn check(p: &dyn Property, thorough: bool, meta: Meta, extra_legs: &mut dyn 
     let nw = nworkers();
     let total = std::env::var("VERIF_RUNS").ok().and_then(|s| s.parse().ok()).unwrap_or_else(|| p.runs(thorough));
     let root = verif_root();
-    println!(
+    crate::say!(
         "momsim check property={} tier={} VERIF_SEED={} runs={} workers={}",
         p.id(),
         if thorough { "thorough" } else { "quick" },
@@ -277,7 +277,7 @@ pub fn check(p: &dyn Property, thorough: bool, meta: Meta, extra_legs: &mut dyn 
             );
             return 2;
         }
-        println!(
+        crate::say!(
             "VIOLATION property={} replay={} class={} occurrences={} detail={}",
             p.id(),
             path,
@@ -289,7 +289,7 @@ pub fn check(p: &dyn Property, thorough: bool, meta: Meta, extra_legs: &mut dyn 
         violations += 1;
     }
     for k in &known_hits {
-        println!("KNOWN-FINDING: {}", k);
+        crate::say!("KNOWN-FINDING: {}", k);
     }
 
     // ---- evidence -----------------------------------------------------------------
@@ -330,7 +330,7 @@ pub fn check(p: &dyn Property, thorough: bool, meta: Meta, extra_legs: &mut dyn 
     });
     std::fs::create_dir_all(format!("{}/evidence", root)).ok();
     write_json(&format!("{}/evidence/{}.json", root, p.id()), &ev).expect("write evidence");
-    println!(
+    crate::say!(
         "momsim done property={} runs={} distinct_nontrivial={} violations={} known={} wall_s={:.1}",
         p.id(),
         m.runs,
@@ -385,11 +385,11 @@ pub fn replay(props: &[&dyn Property], path: &str) -> i32 {
     };
     let hit: Vec<&Found> = found.iter().filter(|f| f.class == class).collect();
     if hit.is_empty() {
-        println!("replay: class {} did NOT reproduce ({} other findings)", class, found.len());
+        crate::say!("replay: class {} did NOT reproduce ({} other findings)", class, found.len());
         0
     } else {
-        println!("VIOLATION property={} replay={} class={}", pid, path, class);
-        println!("{}", serde_json::to_string_pretty(&hit[0].detail).unwrap());
+        crate::say!("VIOLATION property={} replay={} class={}", pid, path, class);
+        crate::say!("{}", serde_json::to_string_pretty(&hit[0].detail).unwrap());
         1
     }
 }
